@@ -467,3 +467,252 @@ def _engine_extra(pid):
 extra_C03 = _engine_extra('C03')
 extra_C05 = _engine_extra('C05')
 extra_C10 = _engine_extra('C10')
+
+# ---- group oracles on run observations (exact) -------------------------------------------------------
+def texts_of(out):
+    return [x[1] for x in find_items(out, 'text')]
+
+def dumps_of(out):
+    return [x[1] for x in find_items(out, 'dump')]
+
+def oracle_C03(results, metas, st):
+    """every way of interrupting a run yields the same final text"""
+    out = []; groups = {}
+    for r, m in zip(results, metas):
+        if 'resume_group' in m:
+            groups.setdefault(m['resume_group'], []).append(r)
+    for g, rs in groups.items():
+        finals = [(r, texts_of(r['cxx'])[-1:] ) for r in rs]
+        base = next((t for r, t in finals if t and not any(op[0] == 'reload' for e in r['case'][3] if e[0] == 'ops' for op in e[1])), None)
+        if base is None:
+            continue
+        for r, t in finals:
+            if t != base:
+                ops = [e[1] for e in r['case'][3] if e[0] == 'ops'][0]
+                what = 'reading the checkpoint back failed' if any(x[:2] == ['reload', 'stream_failed'] for x in r['cxx'] if isinstance(x, list)) else 'the final checkpoint text differs from the uninterrupted run'
+                out.append(viol('run interrupted and resumed from text (operations %s): %s' % (dump(ops)[:200], what), [r['case'], rs[0]['case']])); break
+    return out
+
+def oracle_C05(results, metas, st):
+    """dump / text before and after a reload are identical"""
+    out = []
+    for r in results:
+        cx = r['cxx']
+        if not isinstance(cx, list):
+            continue
+        if any(isinstance(x, list) and x[:2] == ['reload', 'stream_failed'] for x in cx):
+            out.append(viol('a checkpoint written to text could not be read back (stream failed)', [r['case']])); continue
+        seq = [x for x in cx if isinstance(x, list) and x and x[0] in ('dump', 'text', 'reload')]
+        for i, x in enumerate(seq):
+            if x[0] == 'reload' and x[1] == 'ok':
+                before_d = [y for y in seq[:i] if y[0] == 'dump'][-1:]; after_d = [y for y in seq[i:] if y[0] == 'dump'][:1]
+                before_t = [y for y in seq[:i] if y[0] == 'text'][-1:]; after_t = [y for y in seq[i:] if y[0] == 'text'][:1]
+                if before_d and after_d and before_d[0] != after_d[0]:
+                    d = textcmp_diff(before_d[0], after_d[0])
+                    out.append(viol('checkpoint differs after a text round trip: %s' % d, [r['case']])); break
+                if before_t and after_t and before_t[0] != after_t[0]:
+                    out.append(viol('checkpoint text differs after a text round trip', [r['case']])); break
+    return out
+
+def textcmp_diff(a, b, path=''):
+    if isinstance(a, list) and isinstance(b, list):
+        if len(a) != len(b): return '%s: length %d vs %d' % (path, len(a), len(b))
+        for k, (x, y) in enumerate(zip(a, b)):
+            d = textcmp_diff(x, y, '%s/%d' % (path, k))
+            if d: return d
+        return ''
+    return '' if a == b else '%s: %r vs %r' % (path, a, b)
+
+def strip_nz(d):
+    """a dump with the non-zero counters of the main results removed"""
+    import copy
+    d = copy.deepcopy(d)
+    for r in d[1]:
+        r[0][1] = 'nz'
+        # a bin counts fills: the zeroed twin fills a zero where the poisoned run fills nothing
+        for dist in r[1]:
+            for b in dist[1]:
+                b[1] = 'nz'; b[2] = 'fin'
+    return d
+
+def oracle_C06(results, metas, st):
+    out = []
+    by_id = {r['case'][0]: r for r in results}
+    for r, m in zip(results, metas):
+        if 'twin_of' not in m:
+            continue
+        p = by_id.get(m['twin_of'])
+        if p is None: continue
+        dz, dp = dumps_of(r['cxx']), dumps_of(p['cxx'])
+        if not dz or not dp: continue
+        if strip_nz(dz[-1]) != strip_nz(dp[-1]):
+            out.append(viol('run with non-finite evaluations differs from its zeroed twin beyond the non-zero counters: %s' % textcmp_diff(strip_nz(dp[-1]), strip_nz(dz[-1])), [p['case'], r['case']]))
+    for r, m in zip(results, metas):
+        for d in dumps_of(r['cxx']) if isinstance(r['cxx'], list) else []:
+            for res in chk_results(d):
+                vals = [res['main'][3], res['main'][4]] + [b[k] for (par, bins) in res['dists'] for b in bins for k in (3, 4)]
+                if any(v in ('%nan',) for v in vals):
+                    out.append(viol('a reported sum is NaN', [r['case']])); break
+    return out
+
+def oracle_C10(results, metas, st):
+    out = []
+    for r, m in zip(results, metas):
+        info = m.get('info')
+        if not info or not isinstance(r['cxx'], list): continue
+        ds = dumps_of(r['cxx'])
+        if not ds: continue
+        gens = chk_gens(ds[-1])
+        per = info['dims'] + (1 if info['kind'] == 'mc' else 0)
+        cbs = [x for run in find_items(r['cxx'], 'run') for x in run[1][1:]]
+        for k in range(1, len(gens)):
+            if k - 1 < len(info['calls']) and gens[k] - gens[k - 1] != info['calls'][k - 1] * per:
+                out.append(viol('iteration %d with %d calls advanced the generator by %d numbers instead of %d' % (k - 1, info['calls'][k - 1], gens[k] - gens[k - 1], info['calls'][k - 1] * per), [r['case']])); break
+    return out
+
+def oracle_C12(results, metas, st):
+    out = []
+    for r, m in zip(results, metas):
+        if not isinstance(r['cxx'], list): continue
+        spec = r['case'][3]
+        cb = [e[1] for e in spec if e[0] == 'cb'][0]
+        ops = [e[1] for e in spec if e[0] == 'ops'][0]
+        run_items = find_items(r['cxx'], 'run'); run_ops = [o for o in ops if o[0] == 'run']
+        n_before = 0
+        for item, op in zip(run_items, run_ops):
+            cbs = item[1][1:]
+            want = len(op[1])
+            ns = [c[0] for c in cbs]; gos = [c[1] for c in cbs]
+            if ns != list(range(n_before + 1, n_before + 1 + len(ns))):
+                out.append(viol('callback saw checkpoints with %s results; expected consecutive sizes from %d' % (ns, n_before + 1), [r['case']])); break
+            if 0 in gos[:-1]:
+                out.append(viol('an iteration was performed after the callback returned false', [r['case']])); break
+            if len(cbs) < want and (not gos or gos[-1] != 0):
+                out.append(viol('only %d of %d requested iterations were performed although the callback never returned false' % (len(cbs), want), [r['case']])); break
+            if len(cbs) > want:
+                out.append(viol('%d callback invocations for %d requested iterations' % (len(cbs), want), [r['case']])); break
+            if cb[0] == 'script':
+                exp = [cb[1][n - 1] if n - 1 < len(cb[1]) else 1 for n in ns]
+                if gos != exp:
+                    out.append(viol('callback answers %s were not honoured (observed %s)' % (exp, gos), [r['case']])); break
+            elif parse_tok(cb[2]) == 0 and 0 in gos:
+                out.append(viol('built-in callback without a target ended the run after %d iterations' % len(cbs), [r['case']])); break
+            n_before += len(cbs)
+    return out
+
+def oracle_C15(results, metas, st):
+    out = []
+    trunc = {}
+    for r, m in zip(results, metas):
+        if 'truncated_of' in m:
+            trunc[(m['truncated_of'], m['k'])] = r
+    for r, m in zip(results, metas):
+        if 'rollback_group' not in m or not isinstance(r['cxx'], list): continue
+        k, n = m['k'], m['n']
+        rb = [x for x in r['cxx'] if isinstance(x, list) and x and x[0] == 'rollback']
+        if not rb: continue
+        if k > n:
+            if rb[0][1] != 'throw':
+                out.append(viol('rollback(%d) of a checkpoint with %d results was not rejected' % (k, n), [r['case']]))
+            continue
+        if rb[0][1] != 'ok':
+            out.append(viol('rollback(%d) of a checkpoint with %d results was rejected' % (k, n), [r['case']])); continue
+        t = trunc.get((m['rollback_group'], k))
+        if t is None: continue
+        tt, rt = texts_of(t['cxx']), texts_of(r['cxx'])
+        if len(tt) >= 2 and len(rt) >= 2:
+            if rt[0] != tt[0]:
+                out.append(viol('checkpoint rolled back to iteration %d of %d serialises differently from the run that performed only %d iterations' % (k, n, k), [r['case'], t['case']]))
+            elif rt[1] != tt[1] and not any(e[0] == 'tables' or (e[0] == 'f' and e[1][0] == 'tab') or (e[0] == 'map' and e[1][0] == 'tab') for e in r['case'][3]):
+                # (table-driven integrands / maps are indexed by the harness' own call counter, which a rollback does not rewind)
+                out.append(viol('resuming after rollback(%d) does not reproduce the remaining iterations of the original run' % k, [r['case'], t['case']]))
+    return out
+
+def oracle_C17(results, metas, st):
+    out = []
+    for r, m in zip(results, metas):
+        if not isinstance(r['cxx'], list): continue
+        info = m.get('info', {})
+        fmt = FMTS[r['case'][1]]
+        for item in find_items(r['cxx'], 'run'):
+            ev = find_items(item, 'events')
+            if not ev: continue
+            evs = ev[0][1:]
+            if any(e[0] == 'buffer_violation' for e in evs):
+                out.append(viol('the coordinate / density buffers handed to the map for densities are not the untouched ones of the coordinate call', [r['case']])); break
+            i = 0; bad = None
+            while i < len(evs) and not bad:
+                e = evs[i]
+                if info.get('kind') == 'mc':
+                    if e[0] != 'mc': bad = 'call does not start with the map asked for coordinates (found %s)' % e[0]; break
+                    ch, us, en = e[1], e[2], e[3]
+                    if ch not in en: bad = 'map asked for coordinates of channel %d which is not in the enabled list %s' % (ch, en); break
+                    if i + 1 >= len(evs) or evs[i + 1][0] != 'f': bad = 'integrand not invoked after the coordinate call'; break
+                    f = evs[i + 1]
+                    if f[2] != us: bad = 'integrand saw random numbers different from those handed to the map'; break
+                    for u in us:
+                        v = parse_tok(u)
+                        if not isnum(v) or not (0 <= v < 1): bad = 'random number %s handed to the map is not in [0,1)' % u
+                    j = i + 2
+                    while j < len(evs) and evs[j][0] == 'md':
+                        if evs[j][1] != ch or evs[j][2] != us or evs[j][4] != en: bad = 'density call with different channel / numbers / enabled list than the coordinate call'
+                        j += 1
+                    i = j
+                else:
+                    if e[0] != 'f': bad = 'unexpected event %s' % e[0]; break
+                    for u in e[2]:
+                        v = parse_tok(u)
+                        hi_ok = (v <= 1) if info.get('kind') == 'vegas' else (v < 1)
+                        if not isnum(v) or v < 0 or not hi_ok: bad = 'coordinate %s outside the unit interval' % u
+                    i += 1
+            if bad:
+                out.append(viol(bad, [r['case']])); break
+            ncalls = sum(1 for e in evs if e[0] == 'f')
+            performed = len(item[1]) - 1
+            ops = [e[1] for e in r['case'][3] if e[0] == 'ops'][0]
+    return out
+
+def oracle_C20(results, metas, st):
+    out = []; groups = {}
+    for r, m in zip(results, metas):
+        if 'mode_group' in m:
+            groups.setdefault(m['mode_group'], []).append(r)
+    for g, rs in groups.items():
+        ds = [dumps_of(r['cxx'])[-1:] if isinstance(r['cxx'], list) else None for r in rs]
+        for r, d in zip(rs[1:], ds[1:]):
+            if d != ds[0]:
+                out.append(viol('the run returns a different checkpoint under another callback mode: %s' % textcmp_diff(ds[0], d), [rs[0]['case'], r['case']])); break
+    for r in results:
+        cx = r['cxx']
+        if isinstance(cx, list) and cx and cx[0] in ('exception', 'crash'):
+            out.append(viol('the run did not terminate normally: %s' % dump(cx)[:200], [r['case']]))
+    return out
+
+def oracle_C19(results, metas, st):
+    """result k+1's state = refine(result k) recomputed with the real routine"""
+    import tie
+    out = []
+    exe = st.get('cxx_exe') if isinstance(st, dict) else None
+    if not exe: return out
+    jobs = []
+    for r, m in zip(results, metas):
+        if not isinstance(r['cxx'], list): continue
+        t = r['case'][1]; fmt = FMTS[t]
+        for d in dumps_of(r['cxx'])[-1:]:
+            rs = chk_results(d)
+            for k in range(len(rs) - 1):
+                if d[0] == 'vegas':
+                    pdf, adj = rs[k]['extra'][0], rs[k]['extra'][1]
+                    jobs.append((r, k, ['refine_pdf', [pdf[0], pdf[1], pdf[2], d[3], adj]], rs[k + 1]['extra'][0][2]))
+                elif d[0] == 'mc':
+                    adj, ws = rs[k]['extra'][0], rs[k]['extra'][1]
+                    jobs.append((r, k, ['refine_w', [ws, adj, d[4], d[3]]], rs[k + 1]['extra'][1]))
+    if not jobs: return out
+    lines = [dump([i + 1, j[0]['case'][1], j[2][0], j[2][1], []]) for i, j in enumerate(jobs)]
+    outs = tie.run_driver(exe, lines)
+    for j, o in zip(jobs, outs):
+        po = parse(o)
+        got = po[1]
+        if isinstance(got, list) and got and got[0] == 'ok' and got[1] != j[3]:
+            out.append(viol('iteration %d did not sample with the refinement of the state and adjustment data recorded in result %d' % (j[1] + 1, j[1]), [j[0]['case']])); 
+    return out
